@@ -80,7 +80,7 @@ func C16(e *simkern.Env) {
 				for s := 0; s < nStreams && !e.Violated(); s++ {
 					m := []struct{ name, mode string }{{"exch", "exchange"}, {"exch2", "exchange"}, {"dyn", "exchange"}}[tp.Draw(3)]
 					nonce := int64(16000 + c*100 + s)
-					sc := hx.GenStreamScript(tp, nonce, "exchange", hx.GenOpts{MaxTurns: 6, FailBias: 5, AllowMeta: true, NoHook: true})
+					sc := hx.GenStreamScript(tp, nonce, "exchange", hx.GenOpts{MaxTurns: 6, FailBias: 5, AllowMeta: true, NoHook: true, Unsealable: true})
 					sc.Header = m.name != "exch2"
 					op := &pipew.Op{Kind: "stream", Method: m.name, Script: sc, StreamKind: "exchange", CancelAt: -1}
 					inputs := 1 + tp.Draw(len(sc.Turns)+2)
@@ -247,7 +247,7 @@ func init() {
 	Registry["C16"] = &Info{
 		Run:   C16,
 		Level: "exploration",
-		Rule:  "each run draws 1-2 instances (cache default/0), 1-2 concurrent client tasks each driving 1-2 exchange streams (exch, exch2, dynamic) with 0-6 scripted turns incl. one failing turn (error, panic, no-emit, double-emit, finish-on-exchange) in half of them, 0-3 user metadata keys per continuation drawn from a set that includes framework-colliding names, and a cancel at a drawn input; every continuation is judged; distinct = schedule fingerprint; non-trivial = at least one continuation judged",
+		Rule:  "each run draws 1-2 instances (cache default/0), 1-2 concurrent client tasks each driving 1-2 exchange streams (exch, exch2, dynamic) with 0-6 scripted turns incl. one failing turn (error, panic, no-emit, double-emit, finish-on-exchange, emit-then-error, emit-then-panic, emit and leave the state unserialisable) in half of them, 0-3 user metadata keys per continuation drawn from a set that includes framework-colliding names, and a cancel at a drawn input; every continuation is judged; distinct = schedule fingerprint; non-trivial = at least one continuation judged",
 		Real:  []string{"vgirpc.HttpServer.handleStreamExchange / handleExchangeCall / handleStreamCancel, stripFrameworkTickMetadata, token re-mint"},
 		Stub:  []string{"HTTP transport", "scripted exchange states recording what they saw"},
 		Quick: 700, Thorough: 60000,
